@@ -1892,6 +1892,20 @@ impl Exec {
                                         ),
                                     ));
                                 }
+                                // the receiver's own result differs from the sender's: before the run is given up as
+                                // another property's business, the armed oracles look at the receiver's board
+                                let np = rp.make(mv);
+                                if self.on(2) {
+                                    let n1 = rb.make_move_new(lib_mv(mv));
+                                    if n1 != nb || !boards_identical(&n1, &nb) {
+                                        return Err(viol(
+                                            "C02",
+                                            &format!("entry_points_differ/{}", move_class(&rp, mv)),
+                                            format!("replica: make_move into used buffer != make_move_new for {} in {}", mv.uci(), rp.fen()),
+                                        ));
+                                    }
+                                }
+                                self.monitor_position(&nb, &np, "replica_incremental", Some((&rb, &rp, mv)))?;
                                 return Ok(Flow::ForeignDivergence("update fingerprint mismatch".into()));
                             }
                             self.stats.cnt("upd.corruption_detected_by_fingerprint");
